@@ -20,6 +20,7 @@ import (
 	"net/http"
 	"os"
 	"path/filepath"
+	"regexp"
 	"runtime"
 	"sort"
 	"strings"
@@ -61,6 +62,24 @@ func (r *vC19Recorder) RoundTrip(req *http.Request) (*http.Response, error) {
 	return &http.Response{StatusCode: 200, Status: "200 OK", Body: io.NopCloser(bytes.NewReader(nil)),
 		Header: http.Header{}, Request: req, Proto: "HTTP/1.1", ProtoMajor: 1, ProtoMinor: 1}, nil
 }
+
+func (r *vC19Recorder) count() int {
+	r.mu.Lock()
+	defer r.mu.Unlock()
+	return len(r.reqs)
+}
+
+// from returns every request recorded at or after index k (used when a single server runs alone).
+func (r *vC19Recorder) from(k int) []vC19Req {
+	r.mu.Lock()
+	defer r.mu.Unlock()
+	if k > len(r.reqs) {
+		k = len(r.reqs)
+	}
+	return append([]vC19Req{}, r.reqs[k:]...)
+}
+
+var vC19UUID4 = regexp.MustCompile(`^[0-9a-f]{8}-[0-9a-f]{4}-4[0-9a-f]{3}-[89ab][0-9a-f]{3}-[0-9a-f]{12}$`)
 
 func (r *vC19Recorder) forID(id string) []vC19Req {
 	r.mu.Lock()
@@ -120,6 +139,17 @@ type vC19Run struct {
 	secrets  map[string][]string // class -> strings that must never appear in a request
 	lastSeen int
 	stopped  bool
+	// exclusive: the server runs while no other server of the test does, every request recorded from
+	// startIdx on is its own (needed when no instance-id file exists to attribute requests by)
+	exclusive bool
+	startIdx  int
+}
+
+func (r *vC19Run) requests() []vC19Req {
+	if r.exclusive {
+		return r.rec.from(r.startIdx)
+	}
+	return r.rec.forID(r.instanceID())
 }
 
 func (r *vC19Run) instanceID() string {
@@ -135,9 +165,9 @@ func (r *vC19Run) instanceID() string {
 
 // state projects what the recorder saw for this server.
 func (r *vC19Run) state() map[string]interface{} {
-	reqs := r.rec.forID(r.instanceID())
+	reqs := r.requests()
 	keys, hdrs, leaks := map[string]bool{}, map[string]bool{}, map[string]bool{}
-	urlOK := true
+	urlOK, idsOK := true, true
 	if n := len(reqs); n > 0 {
 		var p interface{}
 		if json.Unmarshal(reqs[n-1].body, &p) == nil {
@@ -150,6 +180,20 @@ func (r *vC19Run) state() map[string]interface{} {
 		}
 	}
 	for _, q := range reqs {
+		// the instance id must have the shape of a random (version 4) UUID and be no string of the server
+		if !vC19UUID4.MatchString(q.id) {
+			idsOK = false
+		}
+		for _, ss := range r.secrets {
+			for _, s := range ss {
+				if s != "" && q.id == s {
+					idsOK = false
+				}
+			}
+		}
+		if h, err := os.Hostname(); err == nil && q.id == h {
+			idsOK = false
+		}
 		hay := q.url + "\n" + string(q.body)
 		for h, vs := range q.header {
 			hay += "\n" + h + ": " + strings.Join(vs, ",")
@@ -175,6 +219,7 @@ func (r *vC19Run) state() map[string]interface{} {
 		"hdrs":      vC19Sorted(hdrs),
 		"leaks":     vC19Sorted(leaks),
 		"urlOK":     urlOK,
+		"idsOK":     idsOK,
 	}
 }
 
@@ -183,7 +228,7 @@ func (r *vC19Run) state() map[string]interface{} {
 func (r *vC19Run) waitMore(window time.Duration) {
 	deadline := time.Now().Add(window)
 	for time.Now().Before(deadline) {
-		if len(r.rec.forID(r.instanceID())) > r.lastSeen {
+		if len(r.requests()) > r.lastSeen {
 			return
 		}
 		time.Sleep(5 * time.Millisecond)
@@ -195,10 +240,19 @@ func (r *vC19Run) loadConfig() error {
 	hasFile := vBool(r.route, "hasFile")
 	base := vOneNodeConfig(r.t, r.name)
 	path := ""
+	ival, ivalBy := vStr(r.route, "ival"), vStr(r.route, "ivalBy")
+	seconds := map[string]int{"custom": 1, "zero": 0, "negative": -5}
 	if hasFile {
-		y := "logging:\n  level: error\ntelemetry:\n  interval:\n    seconds: 1\n"
+		y := "logging:\n  level: error\n"
+		tel := ""
+		if ival != "default" && ivalBy == "file" {
+			tel += fmt.Sprintf("  interval:\n    seconds: %d\n", seconds[ival])
+		}
 		if file != "unset" {
-			y += "  enabled: " + file + "\n"
+			tel += "  enabled: " + file + "\n"
+		}
+		if tel != "" {
+			y += "telemetry:\n" + tel
 		}
 		path = filepath.Join(storagePath, r.name+".yaml")
 		if err := os.WriteFile(path, []byte(y), 0o644); err != nil {
@@ -229,10 +283,24 @@ func (r *vC19Run) loadConfig() error {
 	cfg.NATS.Password = "natspass-" + r.name
 	cfg.LogSilent = true
 	cfg.Port = 0
-	cfg.Telemetry.IntervalSeconds = 1
-	// ... and, on the programmatic route, the telemetry switch
-	if prog != "unset" {
-		cfg.Telemetry.Enabled = prog == "true"
+	// ... and, on the programmatic routes, the telemetry settings
+	switch {
+	case prog != "unset" && ivalBy == "prog" && ival == "zero":
+		// a hand-built telemetry section: only the switch is given
+		cfg.Telemetry = TelemetryConfig{Enabled: prog == "true"}
+	default:
+		if ival != "default" && ivalBy == "prog" {
+			cfg.Telemetry.IntervalSeconds = seconds[ival]
+		}
+		if prog != "unset" {
+			cfg.Telemetry.Enabled = prog == "true"
+		}
+	}
+	if vStr(r.route, "idfile") == "unusable" {
+		// <data dir>/.instance_id can be neither read nor written: it is a directory
+		if err := os.MkdirAll(filepath.Join(cfg.DataDir, ".instance_id"), 0o755); err != nil {
+			return err
+		}
 	}
 	r.cfg = cfg
 	r.secrets["creds"] = []string{cfg.NATS.User, cfg.NATS.Password}
@@ -312,13 +380,11 @@ func TestVerifC19Server(t *testing.T) {
 		outMu sync.Mutex
 		jobs  = make(chan vBehaviour)
 	)
-	for w := 0; w < par; w++ {
-		wg.Add(1)
-		go func() {
-			defer wg.Done()
-			for b := range jobs {
+	runOne := func(b vBehaviour, exclusive bool) {
+		{
+			{
 				r := &vC19Run{t: t, id: b.ID, name: fmt.Sprintf("c19n%d", b.ID), route: b.Cfg["route"].(map[string]interface{}),
-					rec: rec, secrets: map[string][]string{}}
+					rec: rec, secrets: map[string][]string{}, exclusive: exclusive, startIdx: rec.count()}
 				lines := []interface{}{map[string]interface{}{"a": "Open", "t": b.ID, "route": r.route, "st": r.state(),
 					"obs": map[string]interface{}{"a": "Open", "err": ""}}}
 				for _, s := range b.Steps {
@@ -335,13 +401,34 @@ func TestVerifC19Server(t *testing.T) {
 				}
 				outMu.Unlock()
 			}
+		}
+	}
+	isExclusive := func(b vBehaviour) bool {
+		return vStr(b.Cfg["route"].(map[string]interface{}), "idfile") != "ok"
+	}
+	for w := 0; w < par; w++ {
+		wg.Add(1)
+		go func() {
+			defer wg.Done()
+			for b := range jobs {
+				runOne(b, false)
+			}
 		}()
 	}
 	for _, b := range sf.Behaviours {
-		jobs <- b
+		if !isExclusive(b) {
+			jobs <- b
+		}
 	}
 	close(jobs)
 	wg.Wait()
+	// servers whose requests cannot be attributed through an instance-id file run alone, one after the other
+	exclusiveFrom := rec.count()
+	for _, b := range sf.Behaviours {
+		if isExclusive(b) {
+			runOne(b, true)
+		}
+	}
 	// requests that belong to no server of this run
 	known := map[string]bool{}
 	for _, b := range sf.Behaviours {
@@ -351,8 +438,8 @@ func TestVerifC19Server(t *testing.T) {
 	}
 	un := 0
 	rec.mu.Lock()
-	for _, q := range rec.reqs {
-		if !known[q.id] {
+	for k, q := range rec.reqs {
+		if !known[q.id] && k < exclusiveFrom {
 			un++
 		}
 	}
